@@ -10,6 +10,8 @@
 ns_t vnow = VBASE;
 __thread int me = 0;
 int simk_passthrough;
+int simk_in_probe;
+int simk_wait_limit = 1000;
 struct simk_hooks hooks;
 
 /* ------------------------------------------------------------------ trace */
@@ -211,7 +213,7 @@ static int enabled(int i)
 
 /* timer descriptors (simulated by eventfds) */
 #define MAXTF 16
-static struct { int fd; int armed; ns_t deadline; } TF[MAXTF];
+static struct { int fd; int armed; int fired; ns_t deadline; } TF[MAXTF];
 static int ntf;
 
 static void tf_fire_due(void)
@@ -221,6 +223,7 @@ static void tf_fire_due(void)
 			uint64_t one = 1;
 			__real_write(TF[i].fd, &one, 8);
 			TF[i].armed = 0;
+			TF[i].fired = 1;
 		}
 	}
 }
@@ -230,6 +233,16 @@ static ns_t tf_min_deadline(void)
 	ns_t d = -1;
 	for (int i = 0; i < ntf; i++)
 		if (TF[i].armed && (d < 0 || TF[i].deadline < d))
+			d = TF[i].deadline;
+	return d;
+}
+
+/* as seen by a waiter: armed, or expired and not yet consumed */
+static ns_t tf_effective(void)
+{
+	ns_t d = -1;
+	for (int i = 0; i < ntf; i++)
+		if ((TF[i].armed || TF[i].fired) && (d < 0 || TF[i].deadline < d))
 			d = TF[i].deadline;
 	return d;
 }
@@ -282,8 +295,13 @@ static void quiescence(void)
 	ns_t td = tf_min_deadline();
 	if (td >= 0 && (d < 0 || td < d))
 		d = td;
-	if (d < 0)
+	if (d < 0) {
+		if (hooks.env_at_hang && hooks.env_at_hang() > 0) {
+			simk_progress();
+			return;
+		}
 		simk_end("hang", 0);
+	}
 	if (d > vnow)
 		vnow = d;
 	tf_fire_due();
@@ -623,7 +641,8 @@ static int do_wait(int prim, int epfd, struct epoll_event *ev, int max,
 	ns_t deadline;
 	char truth[512];
 
-	nwaits++;
+	if (++nwaits > simk_wait_limit)
+		simk_end("runaway", 0);
 	if (hooks.check_touch)
 		hooks.check_touch();
 	e = fault_check(primname[prim]);
@@ -632,7 +651,7 @@ static int do_wait(int prim, int epfd, struct epoll_event *ev, int max,
 		return -1;
 	}
 	tr("\"e\":\"WE\",\"p\":\"%s\",\"to\":[%lld,%lld],\"tfd\":[%lld,%lld],\"now\":[%lld,%lld]}",
-	   primname[prim], TS(rel), TS(tf_min_deadline()), TS(vnow));
+	   primname[prim], TS(rel), TS(tf_effective()), TS(vnow));
 	deadline = rel < 0 ? -1 : vnow + rel;
 
 	__real_pthread_mutex_lock(&M);
@@ -700,7 +719,7 @@ int __wrap_poll(struct pollfd *pf, nfds_t n, int ms)
 	}
 	/* a zero-timeout probe of one descriptor (iv_fd_register_try) is not a
 	 * loop wait: let it through with fault injection only */
-	if (ms == 0 && n == 1) {
+	if (simk_in_probe) {
 		int e = fault_check("poll_probe");
 		if (e) {
 			errno = e;
@@ -775,6 +794,7 @@ int __wrap_timerfd_create(int clk, int flags)
 	if (fd >= 0 && ntf < MAXTF) {
 		TF[ntf].fd = fd;
 		TF[ntf].armed = 0;
+		TF[ntf].fired = 0;
 		ntf++;
 	}
 	tr("\"e\":\"TfdNew\"}");
@@ -796,6 +816,7 @@ int __wrap_timerfd_settime(int fd, int flags, const struct itimerspec *nv, struc
 		uint64_t cnt;
 		ns_t d = nv->it_value.tv_sec * NSEC + nv->it_value.tv_nsec;
 		__real_read(fd, &cnt, 8);	/* drain */
+		TF[i].fired = 0;
 		if (d == 0) {
 			TF[i].armed = 0;
 			tr("\"e\":\"Tfd\",\"v\":[-1,0]}");
@@ -841,6 +862,9 @@ ssize_t __wrap_read(int fd, void *buf, size_t n)
 		errno = e;
 		return -1;
 	}
+	for (int i = 0; i < ntf; i++)
+		if (TF[i].fd == fd)
+			TF[i].fired = 0;
 	return __real_read(fd, buf, n);
 }
 
@@ -895,9 +919,14 @@ long __wrap_syscall(long nr, ...)
 }
 
 /* ------------------------------------------------------------ init / exit */
-static void crash_handler(int sig)
+static void crash_handler(int sig, siginfo_t *si, void *uc)
 {
-	simk_end("crash", sig);
+	/* a general-protection fault (non-canonical address, e.g. a pointer
+	 * read from 0xAA-poisoned memory) is reported with SI_KERNEL */
+	if (sig == SIGSEGV && si && (si->si_code == SI_KERNEL ||
+	    ((uintptr_t)si->si_addr >> 16) == 0xaaaaaaaaaaaaULL))
+		simk_end("crash-poison", sig);
+	simk_end(sig == SIGALRM ? "timeout" : "crash", sig);
 }
 
 void __wrap_abort(void)
@@ -926,10 +955,12 @@ void simk_init(unsigned seed)
 	T[0].pt = pthread_self();
 	pthread_key_create(&exitkey, exitkey_d);
 	memset(&sa, 0, sizeof sa);
-	sa.sa_handler = crash_handler;
+	sa.sa_sigaction = crash_handler;
+	sa.sa_flags = SA_SIGINFO;
 	sigaction(SIGSEGV, &sa, NULL);
 	sigaction(SIGBUS, &sa, NULL);
 	sigaction(SIGFPE, &sa, NULL);
 	sigaction(SIGILL, &sa, NULL);
 	sigaction(SIGABRT, &sa, NULL);
+	sigaction(SIGALRM, &sa, NULL);
 }
